@@ -387,6 +387,23 @@ func (h *hctx) bulk(op string, n, idbase uint64, base, step, d int64) string {
 
 func genBulkBelowCap(c *lib.Ctx) {
 	r := c.Rand.Fork("bulk")
+	// the closed form (Props/C07Fill: C07_fill_closed_form) against the real inserts and the
+	// model's own replay, also with a clock reading not later than the receive time, with
+	// equal receive times (step 0) and across a second boundary
+	for _, p := range []struct {
+		n       uint64
+		step, d int64
+	}{{40, 1000, 0}, {40, 3, -5}, {25, 0, 50}, {64, 40000000, 1}, {1, 1000, 50}, {0, 1000, 50}} {
+		h := newH(c, fmt.Sprintf("bulk closed form n=%d step=%d d=%d", p.n, p.step, p.d))
+		if a := h.bulk("srv.bulkcheck", p.n, 7, T0+999000000, p.step, p.d); a != "ok equal" {
+			h.fail("C07:bulk-closed-form", "store after n first requests of n clients in timestamp order is not the closed form (heap = arrival order)", map[string]any{"answer": a})
+		}
+		h.resync()
+		if p.n > 2 { // an interleaved request of a filled client is served its recorded pair
+			h.hr(hrIn{8, mkReq(t64(T0+999000000+p.step), rxA, txA), T0 + 4000000000, T0 + 4000000050})
+		}
+		c.Count("bulk:closed-form-small")
+	}
 	h := newH(c, "bulk below capacity")
 	h.do("srv.mode brief")
 	base := T0 + 5000000000
